@@ -56,26 +56,26 @@ def eval_outcomes(res, name, pairs):
     """Spec.LifeSpec.outcome_ok evaluated by Coq on every real outcome; returns the set of failing ids."""
     if not pairs:
         return set()
-    body = ["Definition outs : list (N * outcome) := %s." % P.coq_outcomes(pairs),
-            "Definition bad := map fst (filter (fun x => negb (outcome_ok (snd x))) outs)."]
-    vals, _ = C.coq_eval("cases_%s_outcomes" % name, PRE, body, ["bad"], timeout=600)
-    v = C.parse_coq_value(vals["bad"])
-    return set(C.parse_nat_list(re.sub(r'%N', '', v)))
+    rows = []
+    for meta, r in pairs:
+        cs = "[" + "; ".join(P.CAUSE_COQ[c] for c in P.allowed_causes(meta)) + "]"
+        rows.append("(%d%%N, Build_outcome %s %s %s)" % (r["id"], cs, "true" if r["run_returned"] else "false", P.err_coq(r)))
+    tail = ["Definition bad := map fst (filter (fun x => negb (outcome_ok (snd x))) outs)."]
+    bad, _ = C.coq_eval_sharded("cases_%s_outcomes" % name, PRE, rows, "Definition outs : list (N * outcome) := [%s].", tail, "bad", shard=400, timeout=600)
+    return set(bad)
 
 
 def eval_final_modes(res, name, items):
     """items: [(id, mode tokens)] -> ids whose final terminal modes are not the defaults, for BOTH cursor-visibility
-    conventions, evaluated by Coq on the real mode-token stream (Spec.Modes when built, else the VT fields)."""
+    conventions, evaluated by Coq on the real mode-token stream."""
     if not items:
         return set()
-    lst = "[" + ";\n ".join("(%d%%N, %s)" % (i, P.coq_mode_toks(t)) for i, t in items) + "]"
-    body = ["Definition runs : list (N * list tok) := %s." % lst,
-            "Definition clean (sh : bool) (ks : list tok) : bool := let t := vt_run sh (vt_init 80 24 [] 0) ks in "
+    rows = ["(%d%%N, %s)" % (i, P.coq_mode_toks(t)) for i, t in items]
+    tail = ["Definition clean (sh : bool) (ks : list tok) : bool := let t := vt_run sh (vt_init 80 24 [] 0) ks in "
             "negb (in_alt t) && vis_main t && negb (m_cell t) && negb (m_all t) && negb (m_sgr t) && negb (m_paste t) && negb (m_focus t).",
             "Definition bad := map fst (filter (fun x => negb (clean true (snd x) && clean false (snd x))) runs)."]
-    vals, _ = C.coq_eval("cases_%s_modes" % name, PRE, body, ["bad"], timeout=600)
-    v = C.parse_coq_value(vals["bad"])
-    return set(C.parse_nat_list(re.sub(r'%N', '', v)))
+    bad, _ = C.coq_eval_sharded("cases_%s_modes" % name, PRE, rows, "Definition runs : list (N * list tok) := [%s].", tail, "bad", shard=300, timeout=600)
+    return set(bad)
 
 
 def skeleton_obligations(res, prop_mods, names):
